@@ -21,7 +21,7 @@ def allowed():
     return t
 
 
-COLORS = ["#ff0000", "#00ff00", "#123456", "red", "#abc", "transparent", "rgb(1,2,3)"]
+COLORS = ["#ff0000", "#00ff00", "#123456", "red", "#abc", "#ABC", "#FfF", "#fff", "transparent", "rgb(1,2,3)"]
 FONTS = ["Roboto, Arial", "Lato", "Open Sans, sans-serif", "Montserrat", "Ubuntu, Helvetica, Arial, sans-serif",
          "Georgia, serif", "Arial"]
 URLS = ["https://example.com/a.png", "http://x.test/b.jpg?x=1&y=2", "https://example.com/"]
